@@ -1667,6 +1667,17 @@ class WcParse(Generic[AnyStr]):
             self.root(p, result)
 
         if p and (self.matchbase or self.extmatchbase):
+            # If the pattern itself starts with a `globstar`, it merges with the implicit one. The pattern's own leading
+            # `globstar` was built as if it were at the start of the path and cannot guard against `/.` on its own.
+            sep = _GLOBSTAR_DIV.format(self.sep)
+            gstars = {self.path_gstar_dot1, self.path_gstar_dot2}
+            gstars |= {f'({g})' for g in gstars}
+            for index, value in enumerate(result):
+                if value in ('', _NO_ROOT, _NO_WIN_ROOT):
+                    continue
+                if value in gstars and result[index + 1:index + 2] == [sep]:
+                    del result[index:index + 2]
+                break
             result = prepend + result
 
         case_flag = 'i' if not self.case_sensitive else ''
